@@ -105,11 +105,27 @@ def r1(ctx):
     except sym.Unmodelled:
         pass
     tp = param_names(gti.node)[1]
-    ok = sym.pm_any([f"[VAR_i for VAR_t in [*self.__get_restricted_formula({tp}, **formula_kwargs)] for VAR_i in self.term_indices[VAR_t]]",
-                     f"[VAR_i for VAR_t in list(self.__get_restricted_formula({tp}, **formula_kwargs)) for VAR_i in self.term_indices[VAR_t]]",
-                     f"[VAR_i for VAR_t in self.__get_restricted_formula({tp}, **formula_kwargs) for VAR_i in self.term_indices[VAR_t]]"], c) is not None
+    hn = _restrict_helper(P).node.name
+    ok = sym.pm_any([f"[VAR_i for VAR_t in [*self.{hn}({tp}, **formula_kwargs)] for VAR_i in self.term_indices[VAR_t]]",
+                     f"[VAR_i for VAR_t in list(self.{hn}({tp}, **formula_kwargs)) for VAR_i in self.term_indices[VAR_t]]",
+                     f"[VAR_i for VAR_t in self.{hn}({tp}, **formula_kwargs) for VAR_i in self.term_indices[VAR_t]]"], c) is not None
     ctx.check(ok, "C10.R1", "get_term_indices concatenates term_indices in the order of the requested terms", gti.where, ctx.construct(gti, text="get_term_indices"),
               f"returns `{norm(c)[:140] if c is not None else None}`")
+
+
+def _restrict_helper(P):
+    """The private ModelSpec method that turns a terms spec into a formula restricted to the spec's own terms (today
+    `__get_restricted_formula`): found by role — called on self from `subset`, and itself calling `SimpleFormula.from_spec`."""
+    sb = P.method(MS, "subset", inherited=False)
+    called = [c.func.attr for c in ast.walk(sb.node) if isinstance(c, ast.Call) and isinstance(c.func, ast.Attribute) and norm(c.func.value) == "self"]
+    out = []
+    for q, f in P.functions.items():
+        if q.startswith(MS + ".") and q.count(".") == MS.count(".") + 1 and f.node.name in called and f not in out and \
+                any(isinstance(c, ast.Call) and (dotted(c.func) or "").endswith("from_spec") for c in ast.walk(f.node)):
+            out.append(f)
+    if len(out) != 1:
+        raise AnalysisError(f"C10: the restricting helper of ModelSpec.subset was not found (candidates: {[f.qualname for f in out]})")
+    return out[0]
 
 
 def r2(ctx, rule="C10.R2"):
@@ -179,13 +195,13 @@ def r3(ctx):
                 variable_indices[variable] = sorted(indices)
             return variable_indices
     """])
-    _skel(ctx, "C10.R3", _prop(P, "variable_terms"), "variable_terms inverts term_variables", "variable_terms", """
+    _skel(ctx, "C10.R3", _prop(P, "variable_terms"), "variable_terms inverts term_variables", "variable_terms", [f"""
         def variable_terms(self):
             for term, variables in self.term_variables.items():
                 for variable in variables:
-                    variable_terms[variable].add(term)
+                    {add}
             ...
-    """)
+    """ for add in ("variable_terms[variable].add(term)", "variable_terms.setdefault(variable, set()).add(term)")])
     _skel(ctx, "C10.R3", _prop(P, "term_variables"), "term_variables reads the scoped terms of the same structure row", "term_variables",
           [f"""
         def term_variables(self):
@@ -212,20 +228,19 @@ def r4(ctx):
     P = ctx.project
     sb = P.method(MS, "subset", inherited=False)
     tp = param_names(sb.node)[1]
+    rf = [_restrict_helper(P)]   # today: __get_restricted_formula
+    hn = rf[0].node.name
     _skel(ctx, "C10.R4", sb, "subset selects the parent's structure rows by term and emits them in the restricting formula's order", "subset", f"""
         def subset(self, {tp}, **formula_kwargs):
-            formula = self.__get_restricted_formula({tp}, **formula_kwargs)
+            formula = self.{hn}({tp}, **formula_kwargs)
             terms = list(formula)
             terms_set = set(terms)
             term_structure = {{s.term: s for s in self.__structure if s.term in terms_set}}
             return self.update(formula=formula, structure=[term_structure[term] for term in terms])
     """)
-    rf = [f for q, f in P.functions.items() if q.startswith(MS + ".") and q.endswith("__get_restricted_formula")]
-    if not rf:
-        raise AnalysisError("C10.R4: __get_restricted_formula vanished")
     sp = param_names(rf[0].node)[1]
     _skel(ctx, "C10.R4", rf[0], "a restriction naming terms the parent does not have is rejected", "restrict", f"""
-        def __get_restricted_formula(self, {sp}, **formula_kwargs):
+        def {hn}(self, {sp}, **formula_kwargs):
             formula = SimpleFormula.from_spec({sp}, **formula_kwargs)
             ...
             missing_terms = set(formula).difference(self.terms)
